@@ -238,6 +238,7 @@ def _tables_and_domains(res, index):
                 res.bad("DOM-1", k, where, f"{c.name}.get_shape passes b = {b} but documents b = {mb.group(1)}")
     if ntab < 3:
         raise AnalysisError(f"only {ntab} plane tables found (3 confirmed)")
+    _bit_labels(res, fams, [c for c in mod.classes.values() if c.is_subclass_of("TruncationPlaneShapeFamily")])
     # ---- DOM-2
     tt = mod.classes.get("TruncatedTetrahedronFamily")
     if tt is None:
@@ -272,6 +273,46 @@ def _tables_and_domains(res, index):
                     f"Family323Plus needs c in [{base['c'][0]}, {base['c'][1]}], a in [{base['a'][0]}, {base['a'][1]}]")
     else:
         res.not_in_fragment.append("DOM-2: reparametrisation not recovered")
+
+
+def _bit_labels(res, fams, classes):
+    """BITS-1: a set of planes encoded as one number, sum of 2**i over its members (`mask @ np.exp2(np.arange(n))`,
+    `2.0 ** np.arange(n)`, `1 << np.arange(n)`), is injective only while all n bits fit the number type: 53 for a float64
+    label, 63 for int64.  n is the number of planes of a family - the literal tables give it (the largest one counts)."""
+    nmax = 0
+    for c in fams:
+        ty = c.class_attrs.get("_plane_types")
+        try:
+            nmax = max(nmax, len(ty.args[0].elts))
+        except Exception:
+            pass
+    for c in classes:
+        for fn in c.methods.values():
+            for n in ast.walk(fn.node):
+                kind = None
+                if isinstance(n, ast.Call) and ast.unparse(n.func).split(".")[-1] == "exp2" and n.args and "arange" in ast.unparse(n.args[0]):
+                    kind = "float"
+                elif isinstance(n, ast.BinOp) and isinstance(n.op, ast.Pow) and "arange" in ast.unparse(n.right) \
+                        and isinstance(n.left, ast.Constant) and n.left.value in (2, 2.0):
+                    kind = "float" if isinstance(n.left.value, float) else "int"
+                elif isinstance(n, ast.BinOp) and isinstance(n.op, ast.LShift) and "arange" in ast.unparse(n.right) \
+                        and isinstance(n.left, ast.Constant) and n.left.value == 1:
+                    kind = "int"
+                elif isinstance(n, ast.Call) and ast.unparse(n.func).split(".")[-1] == "power" and len(n.args) == 2 and "arange" in ast.unparse(n.args[1]) \
+                        and isinstance(n.args[0], ast.Constant) and n.args[0].value in (2, 2.0):
+                    kind = "float" if isinstance(n.args[0].value, float) else "int"
+                if kind is None:
+                    continue
+                limit = 53 if kind == "float" else 63
+                k = f"{c.name}.{fn.name}:bit-labels"
+                if not nmax:
+                    raise AnalysisError("BITS-1: number of planes not recovered from the tables")
+                if nmax > limit:
+                    res.bad("BITS-1", k, f"{fn.file}:{n.lineno}", f"{c.name}.{fn.name} labels sets of planes by `{ast.unparse(n)[:50]}` (one bit per plane, {kind} arithmetic: "
+                            f"exact up to {limit} bits) while the largest family has {nmax} planes: two different sets that share a high plane and differ only in "
+                            "low ones get the same label, and the vertices they stand for are merged")
+                else:
+                    res.ok("BITS-1", k, sample={"encoding": ast.unparse(n)[:50], "planes": nmax, "bits": limit})
 
 
 # --------------------------------------------------------------------------------------------- uniform families
